@@ -18,6 +18,7 @@ pub struct Opts {
   /// scale factor on run counts (testing the harness itself)
   pub scale: f64,
   pub write_evidence: bool,
+  pub survey: bool,
 }
 
 pub struct LaneSpec {
@@ -62,6 +63,7 @@ pub fn run_check(spec: CheckSpec, opts: &Opts) -> i32 {
       runs,
       jobs: opts.jobs,
       stop_on_first: true,
+      survey: opts.survey,
       replay_dir: format!("{}/replays", opts.verif_dir),
       shrink_budget: 1500,
     };
@@ -76,6 +78,11 @@ pub fn run_check(spec: CheckSpec, opts: &Opts) -> i32 {
       r.stats.failures_by_kind,
       r.stats.wall_s
     );
+    if opts.survey {
+      for (sig, (n, first)) in &r.stats.survey {
+        println!("    SURVEY {n:>7}x first_run={first:<8} {sig}");
+      }
+    }
     for e in &r.harness_errors {
       println!("HARNESS-ERROR: {e}");
       exit = 2;
